@@ -170,6 +170,14 @@ type c05Held struct {
 }
 
 func (c05) Exec(seed int64, i int, tier string) Record {
+	switch i % 20 {
+	case 3:
+		return c05FnCase(CaseRng(seed, "C05", i), "tick")
+	case 9:
+		return c05FnCase(CaseRng(seed, "C05", i), "box")
+	case 15:
+		return c05FnCase(CaseRng(seed, "C05", i), b7ReentName)
+	}
 	r := CaseRng(seed, "C05", i)
 	var doc0 interface{}
 	var p *Path
@@ -421,4 +429,240 @@ func c05OverwriteInPlace(target, src interface{}) bool {
 		return true
 	}
 	return false
+}
+
+// ---------- classes with user functions that are not pure functions of their argument ----------
+//
+// Three classes (5% of the cases each), all with the oracle of this property: every call of the
+// reused parsed function equals a FRESH Retrieve of the same path on the same document under the
+// same circumstances.
+//   tick   a counting filter function: its n-th call returns n. Before call j of the history the
+//          counter stands at some base; the fresh Retrieve gets a counter of its own starting at
+//          the same base. Results and the number of calls made must agree. When the path is
+//          `STEPS.tick()` with function-free STEPS the results must also be base+1 … base+k for
+//          the k values STEPS selects (one call per selected value, in order).
+//   box    a filter function that returns a fresh container ["box", v] on every call. After every
+//          call of the reused function the test overwrites element 0 of every box handed out so far
+//          ("MUTATED"): what a call returns is the caller's, a later call must not show it.
+//   reent  the re-entrant function of b7_helpers.go: every call evaluates the reused parsed function
+//          again on the next document(s) of the history and returns its argument; the fresh
+//          Retrieve uses the plain identity under the same name.
+type c05Counter struct{ n int }
+
+func (c *c05Counter) tick(v interface{}) (interface{}, error) {
+	c.n++
+	return float64(c.n), nil
+}
+
+func c05FnCase(r *Rng, class string) Record {
+	var doc0 interface{}
+	var p *Path
+	acc := r.Chance(15)
+	nc, nr, nt := 0, 0, 0
+	for try := 0; try < 6 && nc+nr+nt == 0; try++ {
+		switch r.Weighted([]int{50, 25, 25}) {
+		case 0:
+			doc0, p = b7GenRecCase(r, 30)
+		case 1:
+			doc0, p, _ = c04GenCase(r)
+		default:
+			doc0, p = GenCase(r, DefaultOpts())
+		}
+		if len(p.Fns) > 1 {
+			p.Fns = p.Fns[:1]
+		}
+		pct := 70
+		if class == "box" {
+			pct = 25 // a container compared with a literal is rarely interesting; the end of the path is
+		}
+		nc, nr, _ = b7InjectFn(r, &Path{Head: HeadRoot, Steps: p.Steps}, pct, class)
+		if nc+nr == 0 || r.Chance(pick(class == "box", 85, 40).(int)) {
+			if len(p.Fns) == 1 && r.Chance(50) {
+				p.Fns = []Fn{{Name: class}, p.Fns[0]}
+			} else {
+				p.Fns = append(p.Fns, Fn{Name: class})
+			}
+			nt = 1
+		}
+	}
+	text := Render(p, r)
+	L := r.Range(2, 6)
+	docs := []interface{}{doc0}
+	kinds := []string{"base"}
+	for len(docs) < L {
+		switch r.Weighted([]int{35, 30, 10, 5, 20}) {
+		case 0:
+			docs = append(docs, c05Mutate(r, doc0, []int{8, 25, 60}[r.Intn(3)]))
+			kinds = append(kinds, "variant")
+		case 1:
+			docs = append(docs, docs[r.Intn(len(docs))])
+			kinds = append(kinds, "repeat")
+		case 2:
+			docs = append(docs, RebuildShuffled(docs[r.Intn(len(docs))], r))
+			kinds = append(kinds, "rebuilt")
+		case 3:
+			docs = append(docs, c05FailDoc(r))
+			kinds = append(kinds, "faildoc")
+		default:
+			docs = append(docs, b7AltDoc(r, docs[len(docs)-1], []int{10, 30}[r.Intn(2)]))
+			kinds = append(kinds, "same-shape-variant-of-previous")
+		}
+	}
+	docTexts := make([]string, L)
+	for j := range docs {
+		docTexts[j] = JSONText(docs[j])
+	}
+	rec := Record{Text: text, Doc: docTexts[0], Tags: append(stepTags(p), "class:fn-"+class)}
+	rec.Info = map[string]interface{}{"accessor": acc, "history": docTexts, "history_kinds": kinds, "class": class}
+	if nc+nr > 0 {
+		rec.Tags = append(rec.Tags, "fn-"+class+":in-operand")
+	}
+	if nt > 0 {
+		rec.Tags = append(rec.Tags, "fn-"+class+":at-the-end")
+	}
+
+	// the reused function and its circumstances
+	ctr := &c05Counter{}
+	var boxes [][]interface{}
+	re := &b7Reent{}
+	cfg := c05Config(acc, nil)
+	switch class {
+	case "tick":
+		cfg.SetFilterFunction("tick", ctr.tick)
+	case "box":
+		cfg.SetFilterFunction("box", func(v interface{}) (interface{}, error) {
+			b := []interface{}{"box", v}
+			if len(boxes) < 4096 {
+				boxes = append(boxes, b)
+			}
+			return b, nil
+		})
+	default:
+		b7WithReent(&cfg, re)
+	}
+	freshRun := func(doc interface{}, base int) (Outcome, int) {
+		fc := c05Config(acc, nil)
+		fctr := &c05Counter{n: base}
+		switch class {
+		case "tick":
+			fc.SetFilterFunction("tick", fctr.tick)
+		case "box":
+			fc.SetFilterFunction("box", func(v interface{}) (interface{}, error) { return []interface{}{"box", v}, nil })
+		default:
+			fc.SetFilterFunction(b7ReentName, fnID)
+		}
+		o := Run(text, DeepCopy(doc), &fc)
+		return o, fctr.n
+	}
+	f, po := SafeParse(text, &cfg)
+	if f == nil {
+		rec.Viol = "generated path was rejected by Parse: " + po.Detail()
+		rec.Class = "parse-reject"
+		return rec
+	}
+	// `STEPS.tick()` with function-free STEPS: one call per selected value, in order
+	seq := class == "tick" && nc+nr == 0 && len(p.Fns) == 1
+	stepsText := ""
+	if seq {
+		stepsText = Render(&Path{Head: HeadRoot, Steps: p.Steps}, nil)
+		Render(p, nil)
+	}
+	var held []c05Held
+	flips, innerRan := 0, false
+	prev := ""
+	for j := range docs {
+		if r.Chance(40) {
+			fresh := c05Config(false, nil)
+			c05Interleave(r, &fresh)
+		}
+		base := ctr.n
+		eo, ecount := freshRun(docs[j], base)
+		exp := c05Canon(eo)
+		if class == b7ReentName {
+			re.F, re.Budget = f, 200
+			re.Docs = []interface{}{docs[(j+1)%L]}
+			if L > 2 && r.Chance(40) {
+				re.Docs = append(re.Docs, docs[(j+2)%L])
+			}
+		}
+		before := re.Inner
+		o := SafeCall(f, docs[j])
+		re.F = nil
+		innerRan = innerRan || re.Inner > before
+		got := c05Canon(o)
+		if got != exp {
+			rec.Viol = fmt.Sprintf("call %d of the reused function (document %s) differs from a fresh Retrieve under the same circumstances: reused=%s fresh=%s", j, clip(docTexts[j], 300), clip(got, 300), clip(exp, 300))
+			rec.Class = "history"
+			return rec
+		}
+		if class == "tick" && ctr.n != ecount {
+			rec.Viol = fmt.Sprintf("call %d of the reused function (document %s) called `tick` %d times, a fresh Retrieve %d times", j, clip(docTexts[j], 300), ctr.n-base, ecount-base)
+			rec.Class = "history"
+			return rec
+		}
+		if seq {
+			plain := c05Config(acc, nil)
+			so := Run(stepsText, DeepCopy(docs[j]), &plain)
+			if so.OK && (!o.OK || len(o.Vals) != len(so.Vals)) {
+				rec.Viol = fmt.Sprintf("call %d: %s selects %d values on %s, but with .tick() the outcome is %s", j, stepsText, len(so.Vals), clip(docTexts[j], 300), clip(got, 300))
+				rec.Class = "tick-sequence"
+				return rec
+			}
+			if so.OK {
+				for k, v := range o.Vals {
+					if a, isAcc := v.(jsonpath.Accessor); isAcc {
+						v = a.Get()
+					}
+					if fv, isNum := v.(float64); !isNum || fv != float64(base+k+1) {
+						rec.Viol = fmt.Sprintf("call %d: the counter stood at %d and %s selects %d values on %s, so .tick() must give %d…%d; got %s", j, base, stepsText, len(so.Vals), clip(docTexts[j], 300), base+1, base+len(so.Vals), clip(got, 300))
+						rec.Class = "tick-sequence"
+						return rec
+					}
+				}
+			}
+		}
+		if re.Panic != "" {
+			rec.Viol = "an inner evaluation of the reused function panicked: " + clip(re.Panic, 600)
+			rec.Class = "abnormal"
+			return rec
+		}
+		// the caller modifies what it was given
+		for _, b := range boxes {
+			b[0] = "MUTATED"
+		}
+		if o.OK {
+			held = append(held, c05Held{res: o.Vals, text: c05ResText(o.Vals), call: j})
+		}
+		for _, h := range held {
+			if t := c05ResText(h.res); t != h.text {
+				rec.Viol = fmt.Sprintf("the slice returned by call %d changed after call %d: was %s now %s", h.call, j, clip(h.text, 300), clip(t, 300))
+				rec.Class = "result-changed"
+				return rec
+			}
+		}
+		if j > 0 && exp != prev {
+			flips++
+		}
+		prev = exp
+	}
+	if len(boxes) > 0 {
+		rec.Tags = append(rec.Tags, "fn-box:boxes-mutated")
+	}
+	if ctr.n > 0 && class == "tick" {
+		rec.Tags = append(rec.Tags, "fn-tick:called")
+	}
+	if seq {
+		rec.Tags = append(rec.Tags, "fn-tick:sequence-oracle")
+	}
+	if innerRan {
+		rec.Tags = append(rec.Tags, "fn-reent:inner-evaluation-ran")
+	}
+	if acc {
+		rec.Tags = append(rec.Tags, "mode:accessor")
+	}
+	rec.Tags = append(rec.Tags, fmt.Sprintf("history:len-%d", L))
+	if ctr.n > 0 || len(boxes) > 0 || innerRan {
+		rec.Key = "fn-" + class + "/" + shapeKey(p) + fmt.Sprint(acc, flips > 0)
+	}
+	return rec
 }
